@@ -397,12 +397,16 @@ func (c c15) Execute(p *core.Plan) *core.Result {
 	ent := entropy.Global
 	ent.Reset(p.Seed)
 	spare := int(p.C("spare", 0))
+	// one arena for the whole run in pool mode: the buffers of one pipeline are scrambled and
+	// reused, at the same addresses, by the next (REUSE fault)
+	pool := arena.New(arena.Layout{Spare: spare, Poison: 0xA5, Guard: 0x5C})
+	pool.Pool, pool.Scramble = p.C("bufreuse", 1) == 1, 0xEE
 	for si, st := range p.Steps {
 		if st.Op != "pipe" {
 			continue
 		}
 		r := core.NewRand(uint64(st.Arg(0, 0)))
-		ar := arena.New(arena.Layout{Spare: spare, Poison: 0xA5, Guard: 0x5C})
+		ar := pool
 		seed := r.Bytes(32)
 		priv := ed25519.NewKeyFromSeed(seed)
 		pub := ar.Put("pub", priv[32:])
@@ -419,6 +423,13 @@ func (c c15) Execute(p *core.Plan) *core.Result {
 		blind1 := ar.Put("blind1", blind)
 		blind2 := ar.Put("blind2", r.Bytes(32))
 		ctx := ar.Put("context", r.Bytes(int(st.Arg(1, 0))))
+		var adjacent []byte
+		if st.Arg(5, 0)%3 == 0 && len(ctx) > 0 {
+			// the caller keeps blind and context next to each other in one buffer
+			adjacent = append(append([]byte(nil), blind...), ctx...)
+			blind1, ctx = adjacent[:32], adjacent[32:]
+		}
+		ctxSnap := append([]byte(nil), ctx...)
 		msg := ar.Put("message", r.Bytes(int(st.Arg(2, 0))))
 		key := fmt.Sprintf("c%d/m%d/o%d/x%d/b%d", len(ctx), len(msg), st.Arg(3, 0), st.Arg(4, 0), st.Arg(6, 0))
 		res.State(key)
@@ -530,6 +541,10 @@ func (c c15) Execute(p *core.Plan) *core.Result {
 		for _, d := range ar.Audit() {
 			res.Probe("argument written during a blinding call (C16's business): " + d)
 		}
+		if adjacent != nil && !bytes.Equal(ctx, ctxSnap) {
+			res.Probe("context next to the blind was overwritten (C16's business; the laws above were judged with it)")
+		}
+		ar.Release()
 		log.Add("pipe %d %s bp=%s sig=%s", si, key, core.H(bp), core.H(sig1))
 	}
 	res.Fingerprint = log.Hash()
